@@ -11,7 +11,8 @@ import CalVerif.Model.BiffStrings
                                        → `parseNumber` … `parseFormulaValue`
       the worksheet `match r.typ` of `parse_workbook` → `step`; the `for record in records` loop with its
       `record?` and `break` at EOF     → `items` (lazy `RecordIter`) + `sheetLoop`; `Range::from_sparse` is
-      `Range.fromSparse` (Model/Range.lean).
+      `Range.fromSparse` (Model/Range.lean), called on the cells and then on the `formulas` vector
+      (`formulaCells`, `withFormulaRange`: only its panic is observable here).
     Framing (`RecordIter::next` with CONTINUE gathering) and `parse_string` are the definitions of
     Model/BiffStrings.lean (`Biff.nextRecord`, `Biff.parseStringWith`), shared with C12.
 
@@ -371,8 +372,30 @@ def rangeOf (cells : Res (List Cell)) : Res (Range.Rng Val) :=
   | .panic s => .panic s
   | .outOfFuel => .outOfFuel
 
+/-- the `formulas` vector of the loop: one entry (the position; the text is C14's business) per FORMULA record
+    that was processed, i.e. before EOF. Only meaningful when the loop itself succeeded. -/
+def formulaCells : List Item → List (Nat × Nat × Nat)
+  | [] => []
+  | .fail _ :: _ => []
+  | .record r :: rest =>
+    if r.typ = 0x000A then []
+    else if r.typ = 0x0006 then (u16At r.data 0, u16At r.data 2, 1) :: formulaCells rest
+    else formulaCells rest
+
+/-- `let range = Range::from_sparse(cells); let formula = Range::from_sparse(formulas);` — the second call
+    cannot change the cell range but it can panic (FORMULA records out of row order) -/
+def withFormulaRange (its : List Item) (r : Res (Range.Rng Val)) : Res (Range.Rng Val) :=
+  match r with
+  | .ok rng =>
+    match (Range.fromSparse (formulaCells its) : Res (Range.Rng Nat)) with
+    | .ok _ => .ok rng
+    | .err e => .err e
+    | .panic s => .panic s
+    | .outOfFuel => .outOfFuel
+  | other => other
+
 /-- a worksheet substream (from its BOF, as `&stream[pos..]`) to its range -/
 def sheetRange (env : Env) (s : Bytes) : Res (Range.Rng Val) :=
-  rangeOf (decodeSheet env (items s))
+  withFormulaRange (items s) (rangeOf (decodeSheet env (items s)))
 
 end BiffCells
